@@ -14,7 +14,7 @@ PROP = Property(
     rule=('Generated: dumps composed of an ILOG part (random entries, optionally containing a buffer name, a '
           'header start, or both at a chosen place) followed by 0..8 trace buffers whose names are drawn with '
           'repetition from the six recognised names (any order, adjacent, at offset 0, possibly cut inside the '
-          'header), plus raw byte strings; dump files rendered by the harness in both hex formats. Oracle: output '
+          'header), plus raw byte strings, handed over as a view of bytes / bytearray / a window into a larger buffer; dump files rendered by the harness in both hex formats. Oracle: output '
           '== headings + stand-alone ILOG decode of the first region + stand-alone trace decode of every further '
           'region, with region starts from a reference search (first occurrence of each name, which is what the '
           'statement\'s "recognised header" means in the code; every-occurrence splitting is accepted too), and '
@@ -71,7 +71,7 @@ def check_dump(data, note):
         d.parse_ilog_data = lambda dat, h: (seen.append(('I', bytes(dat))), orig_i(dat, h))[1]
         d.parse_trace_data = lambda dat, s: (seen.append(('T', bytes(dat))), orig_t(dat, s))[1]
     try:
-        got = guard('C17.decode', d.parse_dump_data, memoryview(data), hdr, strf)
+        got = guard('C17.decode', d.parse_dump_data, D.view(data), hdr, strf)
     finally:
         if orig_i and orig_t:
             d.parse_ilog_data, d.parse_trace_data = orig_i, orig_t
@@ -202,7 +202,7 @@ def dump_files(case, note):
         text = ''.join(l + '\n' for l in rendered)
     with D.TempFile(text, '.dump') as path:
         got = guard('C17.file', d.parse_dump_file, path, hdr, strf)
-        want = guard('C17.decode', d.parse_dump_data, memoryview(data), hdr, strf) if data else []
+        want = guard('C17.decode', d.parse_dump_data, D.view(data), hdr, strf) if data else []
         note.extra_eval += 1
         if got != want:
             raise Violation('C17.file', 'decoding the dump file (format %d) differs from decoding its bytes: '
